@@ -2,6 +2,5 @@ INIT Init
 NEXT Next
 CONSTANTS Level = 1
           Full = FALSE
-          Lanes = 64
 INVARIANT SpecSane
 CHECK_DEADLOCK FALSE
